@@ -5,7 +5,8 @@ cd "$(dirname "$0")/.."
 start=$(date +%s)
 for id in $(python3 -c "import json;print(' '.join(c['property_id'] for c in json.load(open('MANIFEST.json'))['checks']))"); do
   s=$(date +%s)
-  ./check $id $tier | grep -E "^(VIOLATION|KNOWN-FINDING|$id )" 
-  echo "   [$id exit=$? $(( $(date +%s) - s )) s]"
+  out=$(./check $id $tier); rc=$?
+  echo "$out" | grep -E "^(VIOLATION|KNOWN-FINDING|$id )"
+  echo "   [$id exit=$rc $(( $(date +%s) - s )) s]"
 done
 echo "total $(( $(date +%s) - start )) s"
